@@ -1,17 +1,35 @@
-"""Subscription registry (pubsub.go) part of C26/C04: Subs.tla exhaustive + negative configs + liveness, the real `subs`
-driven by subsdrv with hook events validated against Subs.tla (SubsTrace.tla)."""
-import os, re, shutil, tempfile
+"""Subscription registry (pubsub.go) part of C26/C04: Subs.tla (lock regions, channel operations, the allocation of
+subscription ids and removal by id) exhaustive + negative configs + liveness, the real `subs` driven by subsdrv (Receives
+that start after others ended while further ones are alive) with hook events validated against Subs.tla (SubsTrace.tla)."""
+import concurrent.futures, os, re, shutil, tempfile, threading
 from lib import vlib
 
 
 def run(ctx):
     th = ctx.tier == 'thorough'
-    ctx.run_tlc('pipe', 'MCSubs', 'MC_subs_quick.cfg', workers=16, timeout=1500)
+    # (module, cfg, expected violation, workers): the registry with two subscribers and messages; with three subscribers and
+    # the id allocation (a subscription made after another one ended while a third is alive); liveness; negative configs
+    jobs = [('MC_subs_quick.cfg', None, 6), ('MC_subs_ids.cfg', None, 6), ('MC_subs_live.cfg', None, 4),
+            ('MC_subs_neg_NoDrainer.cfg', 'ReaderProgress', 2), ('MC_subs_neg_CloseKeepsMap.cfg', 'NoSendOnClosed', 2),
+            ('MC_subs_neg_CntDecr.cfg', 'LiveSubscribersRegistered', 2)]
     if th:
-        ctx.run_tlc('pipe', 'MCSubs', 'MC_subs_thorough.cfg', workers=16, timeout=3000)
-    ctx.run_tlc('pipe', 'MCSubs', 'MC_subs_live.cfg', workers=8, timeout=1500)
-    ctx.run_tlc('pipe', 'MCSubs', 'MC_subs_neg_NoDrainer.cfg', expect_violation='ReaderProgress', workers=4, timeout=900)
-    ctx.run_tlc('pipe', 'MCSubs', 'MC_subs_neg_CloseKeepsMap.cfg', expect_violation='NoSendOnClosed', workers=4, timeout=300)
+        jobs += [('MC_subs_thorough.cfg', None, 8), ('MC_subs_ids_thorough.cfg', None, 8)]
+    lock = threading.Lock()
+
+    def one(j):
+        cfg, exp, w = j
+        r = vlib.tlc('pipe', 'MCSubs', cfg, workers=w, timeout=3000 if th else 1500)
+        with lock:
+            ctx.tlc_runs.append(r.summary())
+            ctx.states += r.distinct
+            ctx.transitions += r.generated
+            if exp is not None:
+                if r.violated != exp and r.violated != 'temporal':
+                    ctx.inconclusive.append('negative config pipe/%s: expected violation of %s, got %s %s' % (cfg, exp, r.violated, r.error or ''))
+            elif not r.ok:
+                ctx.inconclusive.append('TLC pipe/MCSubs %s: violated=%s error=%s\n%s' % (cfg, r.violated, r.error, r.output[-3000:]))
+    with concurrent.futures.ThreadPoolExecutor(max_workers=3) as ex:
+        list(ex.map(one, jobs))
     binp = vlib.build('subsdrv')
     tracedir = tempfile.mkdtemp(prefix='verif-subs-', dir=vlib.SCRATCH_ROOT)
     try:
